@@ -14,6 +14,12 @@ CLAIMED = {
  "C08": ("lockset analysis over all call paths (go/ssa path enumeration with lock state; pairwise exclusion of every write context against every other context per shared field)",
          "Decides the race-freedom clause: for every field of shared index, schema, settings, schema-table, cache and pending-store memory, every write context reachable from any handle API entry point or the flusher goroutine is mutually excluded (handle lock, a common package mutex, or the container's own lock) from every other context touching the field; file mutations only under the write lock. Linearizability of results is NOT decided (needs histories and a sequential oracle); race freedom is a necessary condition of it.",
          "Trusts go/ssa, the fresh-object exemption (objects allocated/decoded in the current call tree are unpublished), and that a store/map lock held during an access is the accessed instance's lock.", "DESIGN.md 4 C08"),
+ "C06": ("effect-order path analysis over go/ssa (NEVER-AFTER reject-source/mutation, MUST-BEFORE acceptance/mutation, per-iteration ITER) for all entry paths x 4 cache/async valuations",
+         "Decides the 'no trace' ordering: on every abstract path of InsertOrUpdate and InsertOrUpdateMany, under all four cache/async valuations, no reject-class error source (Validate, uniqueness, wrong type, structure/descriptor mismatch, unknown key type/field, serialisation, decoding) can be reached after a mutation of index, cache, pending store, files or settings, and every mutation is preceded by successful schema acquisition, validation and uniqueness check. The storage-fault half (detectable by Control, restorable by Repair) is not decided here.",
+         "Trusts go/ssa, the effect tables (which instruction is which effect), schema-table stability within one locked call, and three vetted-infeasible exemptions whose premises are themselves checked (C06.R3).", "DESIGN.md 4 C06"),
+ "C15": ("effect-order path analysis over go/ssa (MUST-BEFORE Transform < case transforms < Validate < insertion, who-may-reach, per-iteration ITER)",
+         "Decides that on every path of every insertion entry (single, batch; chunked goes through batch) and every cache/async valuation, Transform precedes the schema case transforms, both precede Validate, a successful Validate precedes every index/cache/pending/file insertion, no clone is taken before the transforms, failed validation returns ErrInvalidObject, and that no other exported entry can reach an accepting index insertion (Repair enumerated).",
+         "Trusts go/ssa and the effect tables; hooks are recognised as invoke instructions on the Object interface.", "DESIGN.md 4 C15"),
 }
 
 NOT_BUILT = "check not built yet in this round (planned, see DESIGN.md section 4)"
